@@ -19,6 +19,7 @@ Oracle:
                 and the WARNING lines differ from it exactly by the toggled class.
 Keys: `<fault class> PE<code> x check-express|<symptom>`; switch matrix: `warning switch ... x check-express|<symptom>`.
 """
+LEVEL = 'fault_enumeration'
 import re
 import zlib
 
